@@ -476,6 +476,28 @@ func init() {
 			binary.BigEndian.PutUint32(p[0:], uint32(len(p)))
 			run("shared-tags", fmt.Sprintf("%d tags sharing one %d-byte region", T, R), seed{"gen:icc-shared-tags", "icc", p}, p)
 		}
+		// (g) a multi-localised description whose records all point at one string region (records may share
+		// or overlap their strings): anything that decodes per record costs records x region
+		for _, tr := range [][2]int{{200, 20000}, {2000, 200000}} {
+			N, R := tr[0], tr[1]
+			tag := []byte("mluc\x00\x00\x00\x00")
+			tag = append(tag, be32(uint32(N))...)
+			tag = append(tag, be32(12)...)
+			for k := 0; k < N; k++ {
+				tag = append(tag, byte('a'+k%26), byte('a'+(k/26)%26), byte('A'+(k/676)%26), byte('A'+k%7))
+				tag = append(tag, be32(uint32(R))...)
+				tag = append(tag, be32(uint32(16+12*N))...)
+			}
+			region := make([]byte, R)
+			for i := 0; i+1 < R; i += 2 {
+				region[i], region[i+1] = 0, byte(0x41+rng.Intn(26))
+			}
+			tag = append(tag, region...)
+			hdr := randBytes(rng, 128)
+			copy(hdr[36:], "acsp")
+			p := layoutProfile(rng, hdr, []genTag{{0x64657363, tag}}, false)
+			run("shared-strings", fmt.Sprintf("mluc with %d records sharing one %d-byte string", N, R), seed{"gen:icc-mluc-shared-strings", "icc", p}, p)
+		}
 		os.Remove(current)
 		checkPlatform386(c)
 		runtime.GC()
